@@ -40,6 +40,7 @@ import PS.Proofs.TtcfgCountC
 import PS.Proofs.TtcfgSat
 import PS.Proofs.TtcfgBuild
 import PS.Proofs.TtcfgCleanLang
+import PS.Proofs.TtcfgBuildTerm
 namespace PS.T
 open PS PS.G
 
@@ -610,5 +611,51 @@ example : (match tableOf (sizeConstraint small int 3 2 true true 100), tableOf (
        | .ok G => PS.G.contains G (leaf one) && !(PS.G.contains G (.node plus [leaf one, leaf one]))
        | _ => false)
     | _, _ => false) = true := by decide +kernel
+
+/-! ### termination of the worklist (fuel adequacy) -/
+
+/-- **`__saturation_build__` terminates** for every builder whose rules strictly decrease a rank
+    of the configuration (non-terminal, pending stack): with either de-duplication the loop ends
+    within `satBound b (rk start)` iterations, where `b` = number of variables of the request +
+    number of primitives and `satBound b n = 1 + b + … + bⁿ`; and **more fuel does not change the
+    table**. -/
+theorem C13_saturation_terminates {S T : Type} [DecidableEq S] [DecidableEq T] (B : Builder S T) (prims : List Sym)
+    (request : Ty) (stackKey : Bool) (rk : NT S T × List (Ty × S) → Nat)
+    (hdec : ∀ (rule : NT S T) (stack : List (Ty × S)), ∀ p ∈ pushesOf B prims request rule stack,
+      rk (entryKey p) < rk (rule, stack)) :
+    (∀ fuel, satBound (request.arguments.length + prims.length) (rk ((request.returns, B.init), [])) ≤ fuel →
+      (saturationTable B prims request stackKey fuel).isSome = true) ∧
+    (∀ fuel extra G, saturationTable B prims request stackKey fuel = some G →
+      saturationTable B prims request stackKey (fuel + extra) = some G) :=
+  ⟨fun fuel hf => saturationTable_terminates B prims request stackKey rk hdec fuel hf,
+   fun fuel extra G h => saturationTable_mono B prims request stackKey fuel extra G h⟩
+
+/-- **the worklist of `size_constraint` always ends**: every rule created has `size ≤ max_size` and
+    moves to `size + 1`, so `max_size + 1 - size` is a rank - every DSL, request, bound, n-gram. -/
+theorem C13_saturation_terminates_size (dsl : Dsl) (request : Ty) (nG : Int) (maxSize : Nat) (actual stackKey : Bool)
+    (fuel : Nat) (hf : satBound (request.arguments.length + dsl.prims.length) (maxSize + 1) ≤ fuel) :
+    (saturationTable (sizeBuilder dsl nG maxSize actual) dsl.prims request stackKey fuel).isSome = true :=
+  size_saturation_terminates dsl request nG maxSize actual stackKey fuel hf
+
+/-- **the worklist of `at_most_k` ends when every primitive that takes an argument is the counted
+    one** (`spendAll`, decidable): rank `occ_left · (A + 1) + |pending stack|`, `A` = total declared
+    arity.  Full statement (false: with a binary primitive that is not counted the pending stack
+    grows for ever - the language is infinite, or finite with an unproductive recursion, see the
+    assumptions in harness/meta/C13.json): the same without `hsp`. -/
+theorem C13_saturation_terminates_atmost_partial (dsl : Dsl) (request : Ty) (nG : Int) (name : String) (k : Nat)
+    (hsp : spendAll dsl name = true) (stackKey : Bool) (fuel : Nat)
+    (hf : satBound (request.arguments.length + dsl.prims.length) (k * (totalArity dsl + 1)) ≤ fuel) :
+    (saturationTable (atMostBuilder dsl nG name k) dsl.prims request stackKey fuel).isSome = true :=
+  atMost_saturation_terminates dsl request nG name k hsp stackKey fuel hf
+
+open Ex in
+/-- non-vacuity: {+, 1} / int / 3 nodes: the bound is 1 + 2 + 4 + 8 + 16 = 31 and the table exists
+    at that fuel; `spendAll` holds for the counted primitive `+` -/
+example : satBound (int.arguments.length + small.prims.length) (3 + 1) = 31 ∧
+    (saturationTable (sizeBuilder small 2 3 true) small.prims int true 31).isSome = true ∧
+    spendAll small "+" = true ∧
+    (saturationTable (atMostBuilder small 2 "+" 1) small.prims int true
+      (satBound (int.arguments.length + small.prims.length) (1 * (totalArity small + 1)))).isSome = true := by
+  decide +kernel
 
 end PS.T
